@@ -68,6 +68,8 @@ def run(ctx):
         ctx.check(not filt and unf, "COVER", f"loop over .{attr}", func=tr, node=lp, construct=f"filtered-note-collection:{attr}",
                   msg=f"the loop ranges over `.{attr}`, whose getter {'filters on tie links' if filt else 'does not enumerate all Note subclasses'}: "
                       f"later notes of tie chains (or grace notes) keep their old pitch")
+    from ..rules import extra as X
+    X.rule_identity_shortcut(ctx)
     # ---- tables
     _, bpc, steps = T.pitch_tables(ctx)
     T.interval_tables(ctx, bpc, steps)
